@@ -6,6 +6,19 @@ use crate::engine::{Avx2, Ssse3};
 #[cfg(target_arch = "aarch64")]
 use crate::engine::Neon;
 
+// Verification hook: restrict runtime feature detection by a settable mask.
+// Shadows `is_x86_feature_detected!` for the rest of this module.
+#[cfg(all(
+    feature = "verif-hooks",
+    any(target_arch = "x86", target_arch = "x86_64")
+))]
+macro_rules! is_x86_feature_detected {
+    ($feature:tt) => {
+        (std::arch::is_x86_feature_detected!($feature)
+            && crate::verif_hooks::feature_allowed($feature))
+    };
+}
+
 // ======================================================================
 // DefaultEngine - PUBLIC
 
